@@ -31,6 +31,7 @@ type Program struct {
 	Stale     []string
 	GhostFields map[string]string
 	ArrayInit map[string]map[int64]*ssa.Const // global array name -> index -> constant initial element
+	ErrorsNew map[string]bool                 // package-level variables initialised with errors.New(...)
 	Lock      map[string]lockEntry            // recorded parameter/local names of the functions under contract (rename robustness)
 }
 
@@ -112,6 +113,19 @@ func LoadProgram(repo string, patterns []string, specDir string, tags string) (*
 		for _, b := range f.Blocks {
 			for _, ins := range b.Instrs {
 				if isInit {
+					// sentinel errors:  g = errors.New("...")  (a plain error value that wraps nothing)
+					if st, isStore := ins.(*ssa.Store); isStore {
+						if g, ok := st.Addr.(*ssa.Global); ok {
+							if call, ok := st.Val.(*ssa.Call); ok {
+								if cf := call.Call.StaticCallee(); cf != nil && cf.Pkg != nil && cf.Pkg.Pkg.Path() == "errors" && cf.Name() == "New" {
+									if p.ErrorsNew == nil {
+										p.ErrorsNew = map[string]bool{}
+									}
+									p.ErrorsNew[globalName(g)] = true
+								}
+							}
+						}
+					}
 					// constant initial elements of package-level arrays:  *(&g[k]) = c
 					if st, isStore := ins.(*ssa.Store); isStore {
 						if ia, ok := st.Addr.(*ssa.IndexAddr); ok {
